@@ -107,11 +107,26 @@ def oracle_any(np, gcd, g, p0, p1):
     return out, tot
 
 
-def run_code(np, g, lats, lons, alts=None, times=None, state=(), integ=()):
+_BUFFERS = {}
+
+
+def run_code(np, g, lats, lons, alts=None, times=None, state=(), integ=(), integ_dtype='float'):
     import warnings
-    args = dict(lats=np.asarray(lats, float), lons=np.asarray(lons, float), alts=None if alts is None else np.asarray(alts, float),
-                times=None if times is None else np.asarray(times, float))
-    sv, iv = tuple(np.asarray(s, float) for s in state), tuple(np.asarray(v, float) for v in integ)
+
+    def buf(name, values, dtype=float):
+        # callers keep their coordinate / value buffers and refill them in place for the next flight: the same array objects
+        # come back with other contents (whatever a gridder remembers about "these arrays" must not outlive their contents)
+        values = np.asarray(values, dtype)
+        key = (id(g), name, values.shape, values.dtype.str)
+        b = _BUFFERS.get(key)
+        if b is None:
+            b = _BUFFERS[key] = np.empty(values.shape, values.dtype)
+        b[...] = values
+        return b
+    args = dict(lats=buf('lats', lats), lons=buf('lons', lons), alts=None if alts is None else buf('alts', alts),
+                times=None if times is None else buf('times', times))
+    sv = tuple(buf(f'state{j}', s_) for j, s_ in enumerate(state))
+    iv = tuple(buf(f'integ{j}', v, (np.int64 if integ_dtype == 'int' else float)) for j, v in enumerate(integ))
     before = {k: (None if v is None else v.copy()) for k, v in args.items()}
     sv0, iv0 = [a.copy() for a in sv], [a.copy() for a in iv]
     with warnings.catch_warnings():
@@ -377,6 +392,17 @@ def run_families(payload):
             cases += 1
             a, b, _ = check_segment(np, gcd, gx, p0, p1, 1000.0, 50.0, 9500.0, 250.0)
             note('crossing segment ' + fmt(p0) + ' -> ' + fmt(p1), a, b)
+        # integrated quantities counted in whole units (integer arrays): the two shares of the crossing segment are fractions
+        for p0, p1 in cross[:40]:
+            cases += 1
+            try:
+                out = run_code(np, gx, [p0[0], p1[0]], [p0[1], p1[1]], None, None, [[1.0, 2.0]], [[7]], integ_dtype='int')
+                tot = float(np.sum(np.asarray(out[5][0], float)))
+                if not (tot >= 7 * (1 - 1e-9)):
+                    note('crossing segment ' + fmt(p0) + ' -> ' + fmt(p1) + ' with an integer-typed integrated value',
+                         [f'pieces {np.asarray(out[5][0]).tolist()} add up to {tot!r}, less than the segment\'s value 7'], [])
+            except Exception as e:   # noqa
+                note('crossing segment with an integer-typed integrated value', [f'grid_trajectory raised {type(e).__name__}: {e}'], [])
         # the degenerate corner: the same point written on both sides of the antimeridian
         for la in (rad(10), rad(-20)):
             cases += 1
